@@ -236,8 +236,9 @@ def _case_2d(case, spl):
     for d1 in (0, 1):
         for d2 in (0, 1):
             ref = rm.spline2d_eval(T1, p1, T2, p2, Cf, x1, x2, d1, d2)
-            tol = C * rm.EPS * (p1 + 1) * (p2 + 1) * cmax * ((2 * p1 * p1 / h1) if d1 else 1) * ((2 * p2 * p2 / h2) if d2 else 1) \
-                * (1 + p1 * float(np.abs(T1).max()) / h1) * (1 + p2 * float(np.abs(T2).max()) / h2)
+            # relative error: rounding of the two sums plus input cancellation per direction (they ADD, not multiply)
+            rel = (p1 + 1) * (p2 + 1) + p1 * float(np.abs(T1).max()) / h1 + p2 * float(np.abs(T2).max()) / h2
+            tol = C * rm.EPS * rel * cmax * ((2 * p1 * p1 / h1) if d1 else 1) * ((2 * p2 * p2 / h2) if d2 else 1)
             got_grid = s.eval(x1.copy(), x2.copy(), d1, d2)
             got_vec = np.full((len(x1), len(x2)), np.nan)
             s.eval_vector(x1.copy(), x2.copy(), got_vec, d1, d2)
